@@ -134,7 +134,7 @@ func main() {
 	if id == "C06" {
 		budget = 150 * time.Second // 8 harnesses x configurations x two builds: about 60 s on an idle 16-core machine
 	}
-	if id == "C19" || id == "C20" {
+	if id == "C19" || id == "C20" || id == "C16" {
 		budget = 120 * time.Second
 	}
 	if tier == "thorough" {
